@@ -145,6 +145,13 @@ def instances(tier, seed):
             s.cons.append(Con('<=', X(0) - t * x1_, 5, grid='integrator_roots'))
         add(fam.with_horizon(s, (('num', Fr(1, 2)), ('num', Fr(2)))), Cfg(method, N=N, M=M, intg=intg or 'rk', grid=[fam.G_UNI, fam.G_GEO_LOC][mi % 2], degree=[2, 1][mi % 2], scheme='radau'),
             rehorizon=(Fr(0), Fr(4)))
+    # the length of the control interval inside a SHIFTED operand on a non-uniform grid: at the final node it is the last interval's length
+    from ..dsl import DTc
+    for mi, (method, intg, g_) in enumerate((('MS', 'rk', fam.G_GEO_LOC), ('DC', None, fam.G_GEO_LOC), ('SS', 'rk', fam.G_GEO_LOC), ('MS', 'rk', fam.G_FREE))):
+        s = copy.deepcopy(fam.ode_core()[0])
+        s.cons = [Con('<=', nxt(DTc * X(0)) - X(0), 5), Con('>=', offset(DTc + X(1), 2), -3), Con('<=', prv(DTc) * X(0), 7), Con('<=', DTc * X(1), 6)]
+        s.note = (s.note or '') + ' + DT_control in shifted operands'
+        add(fam.with_horizon(s, Hsym[mi % len(Hsym)]), Cfg(method, N=3, M=[1, 2][mi % 2], intg=intg or 'rk', grid=g_, degree=2, scheme='radau'))
     # a path constraint on a declared QUADRATURE state (alone and next to a state): one instance per control node
     from ..dsl import Q
     for mi, (method, intg) in enumerate((('MS', 'rk'), ('DC', None), ('SS', 'rk'), ('MS', 'expl_euler'))):
